@@ -65,7 +65,8 @@ REVERTS = [
     ("the TE field is removed", ["C05"]), ("connection-level fields written by the entry serialisation", ["C05"]),
     ("an encrypted fscache entry is bound", ["C17"]), ("only-if-cached with max-age=0", ["C11"]),
     ("fscache lists keys relative", ["C14"]), ("the background revalidation of a stale-while-revalidate serve is built", ["C20"]),
-    ("only-if-cached is honoured for requests the cache never answers", ["C18"]), ("index references keep the exact bytes", ["C19"]), ("fscache.Set writes from its own copy", ["C15"]),
+    ("only-if-cached is honoured for requests the cache never answers", ["C18"]), ("index references keep the exact bytes", ["C19"]), ("fscache.Set writes from its own copy", ["C15"]), ("a 304 that answers the client's own conditional request is handed", ["C02"]),
+    ("the request header fields nominated by Vary are looked up", ["C04"]),
 ]
 
 
